@@ -61,7 +61,9 @@ def gen_history(r):
             h.append("F " + L(rlanes(r)))
         elif k < 0.50:
             h.append("P " + rhexstr(r))
-        elif k < 0.58:
+        elif k < 0.52:
+            h.append("MT " + L(rlanes(r)))
+        elif k < 0.60:
             a = rlanes(r)
             b = a if r.random() < 0.4 else rlanes(r)
             h.append("X " + L(a) + " " + L(b))
@@ -89,6 +91,8 @@ CORPUS = [
     ["new 1 2 3 4 5 6 7 8", "get", "xor 1 2 3 4 5 6 7 8", "get"],      # h ^ h
     ["H ff", "H 80", "H -", "H 00"],
     ["X 1 2 3 4 5 6 7 8 1 2 3 4 5 6 7 8"],
+    ["H 616263", "H 61", "H 6162636465"],      # odd lengths in exact-size buffers
+    ["MT 1 2 3 4 5 6 7 8"],
 ]
 
 
